@@ -127,6 +127,11 @@ func main() {
 	for i := 0; i < n; i++ {
 		runScenario("random", true, g.U64(), 8+g.Intn(16))
 	}
+	// 4. random trees whose blocks carry two different difficulty bits (heavier-but-not-taller branches)
+	n = r.N(6, 120)
+	for i := 0; i < n; i++ {
+		runScenario("random-mixed-bits", false, g.U64(), 8+g.Intn(21))
+	}
 
 	r.Assume = []string{
 		"script verification results are an input of the model (property C01); the harness labels a transaction's scripts as failing exactly when it spends an output it created with the always-false script or signs with the wrong key",
